@@ -224,6 +224,8 @@ def constraints_for(ix, body, sym, block):
             continue
         t = body.blocks[d].term
         arms = [(a[0], a[1]) for a in t["arms"]] + [("otherwise", t["otherwise"])]
+        # arms that lead straight to `unreachable` (exhaustive matches) carry no information
+        arms = [(v, tgt) for v, tgt in arms if not (tgt >= 0 and body.blocks[tgt].term["k"] == "unreachable" and not body.blocks[tgt].stmts)]
         leading = []
         for v, tgt in arms:
             if block in body.reachable_from(tgt, removed={d}, include_start=True):
